@@ -88,6 +88,13 @@ class Closure:
         return "<lambda>"
 
 
+class AttrGetter:
+    """operator.attrgetter('name') as a key function."""
+
+    def __init__(self, attr):
+        self.attr = attr
+
+
 class _Return(Exception):
     def __init__(self, value):
         self.value = value
@@ -617,11 +624,15 @@ class Interp:
                 if v is None:
                     raise _Raise("TypeError")
                 return TOP
+            if n in ("attrgetter", "operator.attrgetter") and len(args) == 1 and isinstance(args[0], str):
+                return AttrGetter(args[0])
             if n == "sorted" and args and isinstance(args[0], (list, tuple)):
                 keyf = kwargs.get("key")
                 rev = kwargs.get("reverse", False)
                 if keyf is None:
                     keys = list(args[0])
+                elif isinstance(keyf, AttrGetter):
+                    keys = [x.attrs.get(keyf.attr, TOP) if isinstance(x, Obj) else TOP for x in args[0]]
                 elif isinstance(keyf, Closure) and len(keyf.node.args.args) == 1:
                     keys = []
                     for item in args[0]:
